@@ -412,6 +412,31 @@ fn hexs(b: &[u8]) -> String { b.iter().map(|x| format!("{:02x}", x)).collect() }
 /// Runs the history (snapshots live across flushes and compactions, not across a reopen) and
 /// reports every view through the public read API: get, and the DatabaseIterator in both
 /// directions, with seeks and direction reversals.
+/// Reads every pinned iterator to its end in both directions (C03: an iterator observes the state at
+/// its creation whatever happened since) and records what it showed.
+fn read_pins(pinned: &mut Vec<(usize, bool, crate::iterator::DatabaseIterator, crate::iterator::DatabaseIterator)>) {
+    use crate::RainDbIterator;
+    for (i, positioned, mut a, mut b) in pinned.drain(..) {
+        let mut forward = vec![];
+        if !positioned { a.seek_to_first().unwrap(); }
+        while a.is_valid() {
+            let (k, v) = a.current().unwrap();
+            forward.push((k.clone(), v.clone()));
+            a.next();
+        }
+        let mut backward = vec![];
+        let ok = if positioned { true } else { b.seek_to_last().is_ok() };
+        if ok {
+            while b.is_valid() {
+                let (k, v) = b.current().unwrap();
+                backward.push((k.clone(), v.clone()));
+                b.prev();
+            }
+        }
+        PINS.with(|p| p.borrow_mut().push(PinnedScan { taken_at: i, forward, backward }));
+    }
+}
+
 pub fn run_views(ops: &[DbOp], keys: &[Vec<u8>], moves: &str) -> Vec<View> {
     use crate::RainDbIterator;
     let mut options = DbOptions::with_memory_env();
@@ -449,6 +474,9 @@ pub fn run_views(ops: &[DbOp], keys: &[Vec<u8>], moves: &str) -> Vec<View> {
             DbOp::Sleep(ms) => std::thread::sleep(std::time::Duration::from_millis(*ms)),
             DbOp::DirCheck => {
                 // nothing may pin an older version any more
+                // (the pinned iterators are READ before they are given up: a history used to end with this
+                // step, which dropped them unread - found when seeded changes C03-m2 / C03-r5m2 went unreported)
+                read_pins(&mut pinned);
                 for (_, s0) in snaps.drain(..) { db.as_ref().unwrap().release_snapshot(s0); }
                 pinned.clear();
                 // files that only a released snapshot / iterator kept alive are reclaimed by the NEXT
@@ -503,25 +531,7 @@ pub fn run_views(ops: &[DbOp], keys: &[Vec<u8>], moves: &str) -> Vec<View> {
         }
     }
     // pinned iterators are read now, after everything else happened
-    for (i, positioned, mut a, mut b) in pinned.drain(..) {
-        let mut forward = vec![];
-        if !positioned { a.seek_to_first().unwrap(); }
-        while a.is_valid() {
-            let (k, v) = a.current().unwrap();
-            forward.push((k.clone(), v.clone()));
-            a.next();
-        }
-        let mut backward = vec![];
-        let ok = if positioned { true } else { b.seek_to_last().is_ok() };
-        if ok {
-            while b.is_valid() {
-                let (k, v) = b.current().unwrap();
-                backward.push((k.clone(), v.clone()));
-                b.prev();
-            }
-        }
-        PINS.with(|p| p.borrow_mut().push(PinnedScan { taken_at: i, forward, backward }));
-    }
+    read_pins(&mut pinned);
     let d = db.as_ref().unwrap();
     let mut views = vec![];
     let mut all: Vec<(Option<usize>, Option<crate::Snapshot>)> = snaps.iter().map(|(i, s)| (Some(*i), Some(s.clone()))).collect();
